@@ -80,10 +80,14 @@ static std::vector<Byte> render_int(State &s, const Val &v, char conv, bool is_s
     for (auto &r : s.rendered)
       if (eid(*r.value) == eid(mag) && r.digit_ids.size() == nd && r.guard_id == eid(cls[chosen]))
       {
-        // rebuild bytes from stored ids is not possible; fall through to fresh variables (sound, just more variables)
-        break;
+        digits = r.digit_bytes;
+        return pad(digits, neg);
       }
-    z3::expr sum = Z.bv_val(0, 64);
+    // defining constraint in the narrowest width that holds 10^nd (cheaper to bit-blast than 64 bits);
+    // the class constraint (mag < 10^nd) is already on the path, so the low w bits determine mag
+    unsigned w = 8; { unsigned __int128 lim = 1; for (unsigned i = 0; i < nd; i++) lim *= 10; while (w < 64 && ((unsigned __int128)1 << w) <= lim) w++; if (w < 64) w++; if (w > 64) w = 64; }
+    if (w < 9) w = 9;
+    z3::expr sum = Z.bv_val(0, w);
     Rendered rd; rd.value = mkep(mag); rd.guard_id = eid(cls[chosen]); rd.neg = neg;
     std::vector<z3::expr> dv;
     for (unsigned i = 0; i < nd; i++)
@@ -91,19 +95,16 @@ static std::vector<Byte> render_int(State &s, const Val &v, char conv, bool is_s
       z3::expr d = Z.bv_const(("dig!" + std::to_string(s.nsym++)).c_str(), 8);
       dv.push_back(d);
       add_constraint(s, z3::ule(d, Z.bv_val(9, 8)));
-      sum = sum * Z.bv_val(10, 64) + z3::zext(d, 56);
+      sum = sum * Z.bv_val(10, w) + z3::zext(d, w - 8);
     }
-    z3::expr mag64 = argbits < 64 ? z3::zext(mag, 64 - argbits) : mag;
-    if (nd == 20)
-    {
-      // 64-bit, 20 digits: guard against wrap of the 64-bit sum: leading digit is 1 and rest < 2^64-10^19
-      add_constraint(s, dv[0] == Z.bv_val(1, 8));
-    }
-    add_constraint(s, sum == mag64);
+    z3::expr magw = argbits < w ? z3::zext(mag, w - argbits) : (argbits > w ? mag.extract(w - 1, 0) : mag);
+    if (nd == 20) add_constraint(s, dv[0] == Z.bv_val(1, 8));
+    add_constraint(s, sum == magw);
     for (unsigned i = 0; i < nd; i++)
     {
       Byte b = sbyte(dv[i] + Z.bv_val('0', 8));
       rd.digit_ids.push_back(b.k == BK_SYM ? eid(*b.e) : 0);
+      rd.digit_bytes.push_back(b);
       digits.push_back(b);
     }
     s.rendered.push_back(rd);
